@@ -149,6 +149,32 @@ func genSignCase(t *core.Tape, uniq string, mods []string) *signCase {
 		if c.Hash == crypto.SHA1 {
 			c.Digest, c.Hash, c.HashName = "sha256", crypto.SHA256, "SHA-256"
 		}
+	case "vsix":
+		c.File = "ext" + uniq + ".vsix"
+		c.Input = repoFixture("VSIXProject1.vsix")
+		if t.Chance(1, 3, "detach-certs") {
+			c.Flags.Set("detach-certs", "true")
+		}
+	case "mach-o":
+		// a Mach-O binary, bound to its bundle's Info.plist and
+		// (sometimes) resource seal, which the client reads from the paths given
+		c.File = "bin" + uniq
+		// (the thin fixture: relic signs one architecture at a time and answers
+		// a universal binary with "invalid magic number"; code directories
+		// exist for SHA-1, SHA-256 and SHA-384)
+		dir := filepath.Join(fixtureDir(), "slimfile.app")
+		c.Input = repoFixture("slimfile.app/dummyapp")
+		if c.Hash != crypto.SHA1 && c.Hash != crypto.SHA256 && c.Hash != crypto.SHA384 {
+			c.Digest, c.Hash, c.HashName = "sha256", crypto.SHA256, "SHA-256"
+		}
+		c.Flags.Set("bundle-id", "com.example."+uniq)
+		c.Flags.Set("info-plist", filepath.Join(dir, "Info.plist"))
+		if t.Chance(1, 2, "resources") {
+			c.Flags.Set("resources", filepath.Join(dir, "_CodeSignature", "CodeResources"))
+		}
+		if t.Chance(1, 3, "hardened-runtime") {
+			c.Flags.Set("hardened-runtime", "true")
+		}
 	case "msi":
 		c.File = "pkg" + uniq + ".msi"
 		c.Input = repoFixture("dummy.msi")
